@@ -1293,14 +1293,14 @@ func planC03(tier string, seed int64) (*Plan, error) {
 	// every named character reference of length 2..kmax (the name is symbolic over letters and digits: the lookup in
 	// the HTML5 entity table forks per entity of that length), in text, in an image alt/title and in an info string
 	entAlpha := "abcdefghijklmnopqrstuvwxyzABCDEFGHIJKLMNOPQRSTUVWXYZ0123456789"
-	kmax := 8
+	kmax := 6
 	if thorough {
 		kmax = 14
 	}
 	entCtx := [][2]string{{"a &", "; b"}, {"![&", ";](u \"&amp;\")"}, {"[a](u '&", ";')"}, {"```&", ";\nc\n```"}}
 	for k := 2; k <= kmax; k++ {
 		for ci, cx := range entCtx {
-			if !thorough && k > 5 && (k+ci)%2 == 1 {
+			if !thorough && k > 4 && ci != k%2 {
 				continue
 			}
 			jobs = append(jobs, job("H_c03_safe", "cfg", []string{core, coreX, all}[(k+ci)%3], "n", k, "pre", cx[0], "post", cx[1], "alpha", entAlpha))
